@@ -215,9 +215,8 @@ func (f *fakeSrv) SendRPC(call hrpc.Call) (proto.Message, error) {
 			kind = "X"
 		}
 		idStr = fmt.Sprint(req.GetScannerId())
-		if sc, ok := f.scanners[req.GetScannerId()]; ok {
-			scan.SetRegion(f.info(sc.reg))
-		}
+		// (the region of a continuation is, as in the real client, the one its key routes to —
+		// set above —, not the one the server-side scanner belongs to)
 	} else {
 		startRow, stopRow = req.Scan.StartRow, req.Scan.StopRow
 	}
@@ -226,6 +225,13 @@ func (f *fakeSrv) SendRPC(call hrpc.Call) (proto.Message, error) {
 		cl = "1"
 	}
 	f.trace = append(f.trace, fmt.Sprintf("%s/%s/%s/%s/%s/%d", kind, hx(startRow), hx(stopRow), idStr, cl, req.GetNumberOfRows()))
+	if sc, ok := f.scanners[req.GetScannerId()]; ok && req.ScannerId != nil &&
+		sc.reg != c.regionOf(scan.Key(), scan.Reversed()) {
+		// the request went, by its key, to the server of another region: nobody there knows this
+		// scanner id, and the scanner it means stays open where it is
+		f.replies = append(f.replies, "E/unknownscanner")
+		return nil, errUnknownScanner
+	}
 	if kind == "X" {
 		delete(f.scanners, req.GetScannerId())
 		if f.release != nil {
